@@ -284,8 +284,44 @@ func (ex *Exec) theoryCall(fr *Frame, st *State, key string, fn *ssa.Function, a
 	case key == "strconv.Atoi":
 		*out = Val{T: rt, L: []*Term{UF("atoi", SInt, args[0].S()), UF("atoi_err", SInt, args[0].S())}}
 		return true
-	case key == "reflect.DeepEqual":
-		return false
+	case key == "sort.Slice" || key == "sort.SliceStable":
+		// the slice's elements are permuted: same length, same set of elements (sortedness is not modelled)
+		sv, ok := ex.ifaceVals[args[0].S()]
+		if !ok {
+			return false
+		}
+		sl, ok := types.Unalias(sv.T).Underlying().(*types.Slice)
+		if !ok {
+			return false
+		}
+		arr, off, ln := sv.L[0], sv.L[1], sv.L[2]
+		ls := Layout(sl.Elem())
+		olds := make([]*Term, len(ls))
+		news := make([]*Term, len(ls))
+		for i, l := range ls {
+			name := elemHeapName(sl.Elem(), l.Path)
+			srt := ArrSort(SInt, ArrSort(SInt, l.Sort))
+			h := ex.heapGet(st, name, srt)
+			olds[i] = shiftRow(Select(h, arr), off)
+			nrow := Fresh("sorted", ArrSort(SInt, l.Sort))
+			ex.heapSet(st, name, Store(h, arr, nrow))
+			news[i] = shiftRow(nrow, off)
+		}
+		ex.boundN++
+		j := Bound(fmt.Sprintf("sj%d", ex.boundN), SInt)
+		k := Bound(fmt.Sprintf("sk%d", ex.boundN), SInt)
+		inr := func(x *Term) *Term { return And(Ge(x, Int(0)), Lt(x, ln)) }
+		var eqs, eqs2 []*Term
+		for i := range ls {
+			eqs = append(eqs, Eq(Select(news[i], j), Select(olds[i], k)))
+			eqs2 = append(eqs2, Eq(Select(olds[i], j), Select(news[i], k)))
+		}
+		if len(ls) > 0 {
+			ex.assume(st, Forall([]*Term{j}, Implies(inr(j), Exists([]*Term{k}, And(inr(k), And(eqs...)))), []*Term{Select(news[0], j)}))
+			ex.assume(st, Forall([]*Term{j}, Implies(inr(j), Exists([]*Term{k}, And(inr(k), And(eqs2...)))), []*Term{Select(olds[0], j)}))
+		}
+		ex.note("extern", key+" (elements permuted: same length and element set; order not modelled)")
+		return void()
 	}
 	return false
 }
